@@ -66,6 +66,10 @@ CLAIMED = {
          "Exploration by runtime monitoring: generated files with uniquely named top-level locals, global variables, global/local functions (statement and assignment forms), tables with function members, t.f / t:m / localtable.f / a.b.c function statements, globals assigned in blocks and annotated class tables; every planted declaration must appear in the document outline (any depth) with a well-formed range that contains its declaring identifier, and every global/function must be returned by workspace/symbol for its exact name at that declaration.",
          "Completeness is judged for the planted declaration kinds only; locals and functions nested inside function bodies are not required. Three-level member functions are finding C19-K1.",
          "DESIGN.md 3/C19"),
+ "C18": ("online monitor: type-6 diagnostics, definition and hover on module strings vs the documented mapping (reference resolver R-mod) before and after file create/delete events",
+         "Exploration by runtime monitoring: generated directory trees (duplicate base names, name.lua vs name/init.lua, native .so, names that only match across a path-component boundary) with a main file requiring modules by dotted, slashed and suffix-only strings, require with/without parentheses and dofile; for every module string the 'file not found' diagnostic, the go-to-definition target and the hover text must agree with the documented mapping and with each other; then a module file is deleted or created with a watched-files event and everything is compared again. One labelled case runs in a workspace whose path contains a dot.",
+         "R-mod returns a candidate set (suffix semantics); any candidate is accepted, a single candidate must be hit exactly. Only the default separator is explored; suffix-only names of .so modules are not asserted (undocumented).",
+         "DESIGN.md 3/C18"),
 }
 
 PENDING_REASON = "check not built yet in this revision of /verif (work in progress; see DESIGN.md section 3 for the planned monitor)"
